@@ -31,7 +31,35 @@ def plain_jaccard(a, b):
     return float(len(a & b)) / float(len(a | b))
 
 
+def make_long_case(rng, gen, slot):
+    """Long candidate set over 4 x 4 keys split over gen['jobs'] jobs: almost every row is kept."""
+    cand, miss = gen['C'], set(gen['M'])
+    kind = 'matcher' if slot % 2 == 0 else 'candset'
+    case = {'kind': kind, 'am': slot % 4 < 2, 'n_jobs': gen['jobs'], 't': [1, 2], 'simkind': 'jaccard',
+            'op': '>=', 'tok': {'kind': 'ws', 'rs': 1}}
+    case['am'] = int(case['am'])
+    vals = {k: ('a b' if k != 7 else 'c') for k in range(1, 9)}
+    for k in miss:
+        vals[k] = None
+    def tab(keys, base):
+        return {'cols': ['id', 'm', 'a'], 'rows': [[k, vals[k], base + k] for k in keys], 'index': None,
+                'strcols': ['m'], 'sdtype': 'object'}
+    case['L'], case['R'] = tab([1, 2, 3, 4], 100), tab([5, 6, 7, 8], 200)
+    ids = list(range(50, 50 + len(cand)))
+    rng.shuffle(ids)
+    case['C'] = {'cols': ['_id', 'l_id', 'r_id', 'extra'],
+                 'rows': [[ids[j], c[0], c[1], 'e%d' % j] for j, c in enumerate(cand)],
+                 'index': rng.choice([list(range(len(cand))), [3] * len(cand)])}
+    if kind == 'matcher':
+        case.update(sc=1, tokmode=1, lout=['a'], rout=None, lpre='l_', rpre='r_', simfn='plain')
+    else:
+        case.update(filt='OVERLAP', meas='OVERLAP', t=[1, 1], ae=1)
+    return case
+
+
 def make_case(rng, gen, slot):
+    if gen.get('kind') == 'long':
+        return make_long_case(rng, gen, slot)
     cand, miss = gen['C'], set(gen['M'])
     kind = 'matcher' if rng.random() < 0.6 else 'candset'
     case = {'kind': kind, 'am': rng.choice([0, 1]), 'n_jobs': rng.choice([1, 1, 2, 3, 4]),
@@ -228,7 +256,7 @@ def run(tier, seed):
         raise runner.MachineryError('GenCandsets: %d GEN records for %d states' % (len(gens), res.distinct))
     cases = []
     for gi, gen in enumerate(gens):
-        for slot in range(slots):
+        for slot in range(slots if gen.get('kind') != 'long' else 2):
             rng = random.Random('%s|%s|%d|%d' % (seed, cfg, gi, slot))
             c = make_case(rng, gen, slot)
             c['_src'] = '%s#%d.%d' % (cfg, gi, slot)
